@@ -233,7 +233,13 @@ func (w *binaryWriter) WriteDecimal(val *Decimal) error {
 func (w *binaryWriter) WriteTimestamp(val Timestamp) error {
 	_, offset := val.dateTime.Zone()
 	offset /= 60
-	val.dateTime = val.dateTime.In(time.UTC)
+	if val.precision <= TimestampPrecisionDay {
+		// A date has no offset to convert by: keep its calendar fields as they are.
+		val.dateTime = time.Date(val.dateTime.Year(), val.dateTime.Month(), val.dateTime.Day(), 0, 0, 0, 0, time.UTC)
+		offset = 0
+	} else {
+		val.dateTime = val.dateTime.In(time.UTC)
+	}
 
 	vlength := timestampLen(offset, val)
 	bufLength := vlength + tagLen(vlength)
